@@ -27,7 +27,35 @@ CORPUS = [
     'int f(int x,int y,int z){ while (x < 10) { if (y < z) { x = y + z; } else { z = z + 1; } } }',
     'int f(int n,int x,int y){ int i; for (i = 0; i < n; i++) { x = x + y; } }',
     'int f(int n,int x,int y,int z){ int i; for (i = 0; i < n; i++) { while (z < 2) { x = x * y; } y = z; } }',
+    # two variables fail at every choice, a third depends on one of them only, a fourth on neither
+    'int f(int c,int a,int b,int r,int s){ while (c) { a = a * a; b = b * b; r = a; s = c; } }',
+    'int f(int c,int a,int r,int s){ while (c) { a = a * a; r = c; s = s; } }',
 ]
+
+
+def failing_family(rng):
+    """a loop in which 1-3 variables fail at EVERY choice (x = x * x, x = x + x) and others depend on some,
+    all or none of them: the shape on which `maybe_result` decides per variable"""
+    fails = rng.sample(['a', 'b', 'd'], rng.randint(1, 3))
+    others = ['r', 's', 't'][:rng.randint(1, 3)]
+    stmts = [f'{v} = {v} {rng.choice("*+")} {v};' for v in fails]
+    for o in others:
+        k = rng.random()
+        if k < 0.35:
+            stmts.append(f'{o} = {rng.choice(fails)};')
+        elif k < 0.55:
+            stmts.append(f'{o} = {rng.choice(fails)} + {rng.choice(fails + ["c"])};')
+        elif k < 0.8:
+            stmts.append(f'{o} = c;')
+        else:
+            stmts.append(f'{o} = {o} + c;')
+    if rng.random() < 0.3:
+        rng.shuffle(stmts)
+    body = ' '.join(stmts)
+    if rng.random() < 0.7:
+        return f'int f(int c,int a,int b,int d,int r,int s,int t){{ while (c) {{ {body} }} }}'
+    return f'int f(int n,int c,int a,int b,int d,int r,int s,int t){{ int i; for (i = 0; i < n; i++) {{ {body} }} }}'
+
 
 
 def observe_loop(loop_node):
@@ -69,6 +97,8 @@ def run(ctx):
     from pymwp import FindLoops, Analysis, Parser as pr, Variables
     rng = ctx.rng
     srcs = list(CORPUS)
+    for i in range(ctx.budget(24, 400)):
+        srcs.append(failing_family(rng))
     for i in range(ctx.budget(60, 2000)):
         g = Gen(rng, Opts(sugar=(i % 4 == 0), max_bin=5, max_stmts=3, nvars=rng.choice([3, 4, 5])))
         srcs.append(g.function())
